@@ -86,8 +86,11 @@ StepsPerRecord == 2 * (MaxRefs + (MaxName + 1) \div 2) + 1
 \* fixed part, 2-byte data pointer).  The constant covers the question and one record that is
 \* rejected after its (at most three) name walks without having been amortised over its bytes.
 C18Bound(len) == (StepsPerRecord * len) \div 14 + 3 * (MaxRefs + (MaxName + 1) \div 2) + 2
+\* a call that panics has still spent its steps: they are judged too (in an optimised build the same input may
+\* loop for ever); a call that makes no progress for the watchdog's patience does not terminate
 C18Why(e) ==
-  IF e.k # "parse" \/ e.res \notin {"ok", "err"} THEN ""
+  IF e.k = "hang" THEN "validation does not terminate"
+  ELSE IF e.k # "parse" THEN ""
   ELSE IF e.steps <= C18Bound(e.len) THEN "" ELSE "steps " \o ToString(e.steps) \o " > bound " \o ToString(C18Bound(e.len))
 C18(e) == LET w == C18Why(e) IN IF w = "" THEN TRUE ELSE Report("VIOLATION-C18", w)
 NextC18 == Once /\ C18(Rec[l])
